@@ -1454,7 +1454,7 @@ func TestVerif_C19(t *testing.T) {
 	wg2.Wait()
 	// LAST (a hit kills the process): sessions WITHOUT a held conn: listener.Close releases the last reference
 	// (counter 0, wg.Wait returning) while newStreamWrapper does wg.Add(1) for a stream arriving at that moment
-	nreuse := venvInt("VERIF_REUSE", 3*n/2)
+	nreuse := venvInt("VERIF_REUSE", n)
 	for k := 0; k < nreuse; k++ {
 		emit(c19Stress(n+8+nstress+k, seed*104729+uint64(k), dir, false))
 	}
